@@ -202,8 +202,10 @@ func Blocked() {
 	// The holder may be a goroutine the code under test started itself (a helper of a parallelised
 	// loop): it will let go in a moment. Only a lock that stays taken is a deadlock.
 	now := time.Now()
-	if now.Sub(blockedLast) > 50*time.Millisecond {
-		blockedSince = now
+	if now.Sub(blockedLast) > 50*time.Millisecond || Steps != blockedSteps {
+		// (a new wait: either some time has passed since the last poll, or library statements were
+		// executed in between – the lock was taken and given back, however contended it is)
+		blockedSince, blockedSteps = now, Steps
 	}
 	blockedLast = now
 	if now.Sub(blockedSince) > 6*time.Second {
@@ -213,6 +215,7 @@ func Blocked() {
 }
 
 var blockedSince, blockedLast time.Time
+var blockedSteps int64
 
 // ---------------------------------------------------------------- black box
 
